@@ -258,6 +258,13 @@ func (b *Builder) item(recv reflect.Value, it *Node) *jen.Statement {
 			return call(recv, "Op", it.V)
 		case "lit":
 			if it.GoVal != nil {
+				if b.Form != nil && it.Form == "" && b.Form(it, false) == "funcvariant" {
+					v := it.GoVal
+					if it.IsRune {
+						return call(recv, "LitRuneFunc", func() rune { b.cb("LitRuneFunc"); return v.(rune) })
+					}
+					return call(recv, "LitFunc", func() interface{} { b.cb("LitFunc"); return v })
+				}
 				if it.IsRune {
 					return call(recv, "LitRune", it.GoVal)
 				}
